@@ -9,6 +9,11 @@ Lemma consts_spec_l :
   rl_window_reqs = MINUTE /\ rl_window_peer = MINUTE /\ rl_window_dd = MINUTE.
 Proof. repeat split; reflexivity. Qed.
 
+Lemma options_wiring_l :
+  opt_wire_rpm = 101 /\ opt_wire_per_peer = 102 /\ opt_wire_dial_data = 103 /\
+  opt_wire_max_concurrent = 104 /\ opt_wire_allow_private_default = 0 /\ default_allow_private = 0.
+Proof. repeat split; reflexivity. Qed.
+
 (* ---- counting ------------------------------------------------------------ *)
 Lemma len_nonneg : forall {A} (l : list A), 0 <= len l.
 Proof. intros. unfold len. lia. Qed.
